@@ -23,7 +23,8 @@ OBLIGATIONS = [
     "SkVerif.C20.rejection_leaves_unfitted",
     "SkVerif.C20.valid_context_accepted",
 ]
-TRUSTED = ["hand-written model SkVerif/Model/Validate.lean of the validators in sktime/utils/validation/{series,forecasting,__init__}.py and of the order in which each entry point calls them",
+TRUSTED = ["static table of validation calls per entry point (harness/extract/entrychecks.py, AST walk) compared with Val.entryChecks on every run",
+           "hand-written model SkVerif/Model/Validate.lean of the validators in sktime/utils/validation/{series,forecasting,__init__}.py and of the order in which each entry point calls them",
            "fractional / wrong-dtype horizon rejection is pandas' Int64Index(dtype=int) cast check = compat emulation: modelled, not verified"]
 ASSUMPTIONS = ["a malformed setting counts as applicable to an entry point only where that setting is used (NaiveForecaster(strategy='last') documents that window_length is ignored)",
                "integer time index; datetime/period indexes out of scope"]
@@ -216,6 +217,10 @@ EPS = ["naive_fit", "naive_predict", "naive_update", "required", "split", "tts",
 
 def gen_cases(tier, rng):
     cases = []
+    import extract.entrychecks as EC
+    for path, cls, fn in EC.ENTRY:
+        import os as _os
+        cases.append({"ep": "static", "fn": (cls + "." if cls else "") + fn + "@" + _os.path.basename(path), "fault": None})
     reps = 12 if tier == "quick" else 60
     heavy = {"gridsearch", "evaluate", "composite", "reduce"}
     for ep in EPS:
@@ -228,6 +233,11 @@ def gen_cases(tier, rng):
 
 
 def run_real(c):
+    if c["ep"] == "static":
+        import extract.entrychecks as EC
+        import importlib
+        importlib.reload(EC)
+        return EC.extract().get(c["fn"], "MISSING")
     try:
         return E.ENTRY[c["ep"]](c)
     except Exception as e:
@@ -243,6 +253,8 @@ def to_line(c):
 
 def oracle(c, out):
     fails = []
+    if c["ep"] == "static":
+        return fails      # the static table is a tie (correspondence), not a property clause
     res, _, fitted = out.partition(":")
     site = c["ep"] + (":" + c["kind"] if "kind" in c else "")
     if c.get("fault"):
@@ -260,6 +272,8 @@ def oracle(c, out):
 
 
 def nontrivial(c, out):
+    if c["ep"] == "static":
+        return out not in ("-", "MISSING")
     return bool(c.get("fault")) or out.startswith("ok")
 
 
